@@ -12,7 +12,10 @@ running one").  The theorem: if every operation block notifies each cell it touc
 re-assignment marked "not redundant: Persistency!"), then after *any* sequence of
 op / failing-op / commit / abort / savepoint / rollback / cacheMinimize / reopen commands memory
 and disk are exactly the states of the surviving operations.  That hypatia's operations are
-such blocks, pickling, FileStorage and the cache are outside Lean: checked by the runtime half.
+such blocks is derived from the object-level index models in `Properties/C09Index.lean`
+(`c09_*_op_disciplined`, `c09_index_histories_refine`; the three hand-written blocks below are kept
+as the smallest illustration); pickling, FileStorage and the cache are outside Lean: checked by
+the runtime half.
 -/
 namespace Hyp.Persist
 
